@@ -19,6 +19,7 @@ import json
 import os
 import sys
 
+from harness.c17.util import report
 from harness.vlib.core import Ctx, REPO, ToolFailure, VERIF
 
 MODEL_FILES = ["MypyVerif/Model/Config.lean", "MypyVerif/Model/ConfigTable.lean", "MypyVerif/Proofs/Config.lean",
@@ -80,7 +81,7 @@ def obligations_search(ctx: Ctx, tables: dict) -> bool:
                 ini, err = w.options([], "mypy.ini", sources.ini_text([(fl[2:].replace("-", "_"), "True")]))
                 d = sources.diff_snap(sources.snap(cli), sources.snap(ini))
                 if d or "Unrecognized" in err:
-                    ctx.report({"class": "source-inequivalent", "flag": fl, "source": "ini"},
+                    report(ctx, {"class": "source-inequivalent", "flag": fl, "source": "ini"},
                                f"{fl} on the command line vs `{fl[2:].replace('-', '_')} = True` in mypy.ini: {d} {err[:200]}",
                                {"kind": "equivalence", "flag": fl, "cli": [fl], "config_name": "mypy.ini",
                                 "config_text": sources.ini_text([(fl[2:].replace('-', '_'), 'True')]), "difference": d, "messages": err})
@@ -89,7 +90,7 @@ def obligations_search(ctx: Ctx, tables: dict) -> bool:
         for v in ("True", "abc", "a, b"):
             a, b = real_parse("ini", key, v), real_parse("toml", key, v)
             if a != b:
-                ctx.report({"class": "source-inequivalent", "option": key, "source": "toml"},
+                report(ctx, {"class": "source-inequivalent", "option": key, "source": "toml"},
                            f"`{key} = {v}`: mypy.ini gives [{a}], pyproject.toml gives [{b}]",
                            {"kind": "key-both", "key": key, "value": v, "ini": a, "toml": b})
                 break
@@ -97,7 +98,7 @@ def obligations_search(ctx: Ctx, tables: dict) -> bool:
         from harness.c17.keys import real_parse
         got = real_parse("ini", key, "True")
         if not got.startswith("sets " + key):
-            ctx.report({"class": "per-module-option-not-settable", "option": key},
+            report(ctx, {"class": "per-module-option-not-settable", "option": key},
                        f"per-module option {key} cannot be set in a section / inline comment: parse_section gives [{got}]",
                        {"kind": "key", "file_kind": "ini", "key": key, "value": "True", "config_gives": got})
     return len(ctx.violations) + len(ctx.known_hits) > before
